@@ -64,6 +64,8 @@ def token_level_domain(a, text):
     def ok(d):
         if d.init is not None:
             return False
+        if d.declarator is None and (d.attrs.get("name") is not None or d.attrs.get("_name") is not None):
+            return False      # Declaration.name of an abstract declaration comes from the attribute
         for k, v in d.attrs.items():
             if v is None or v is True:
                 continue
@@ -251,10 +253,10 @@ template<class T> using V = volatile T;
 """
 
 
-def reference_meaning(cases):
+def reference_meaning(cases, op="meaning"):
     """driver op `meaning` on the source text of each case -> list of (name, valid, type text) or None"""
     drv = common.Driver("drv_decl")
-    out = drv.run(["meaning " + dc.enc_tokens(dc.raw_tokens(t)) for t, _ in cases])
+    out = drv.run([op + " " + dc.enc_tokens(dc.raw_tokens(t)) for t, _ in cases])
     res = []
     for o in out:
         m = o.split(" | ")[0]
@@ -342,15 +344,15 @@ def cxx_candidates(r, n, maxdepth):
     return out
 
 
-def gxx_check(ctx, cases, tag):
+def gxx_check(ctx, cases, tag, extra_head="", meaning_op="meaning", must_accept=None):
     """cases: (text, ast).  Returns number compared."""
     tmp = common.scratch()
     compared = 0
     try:
-        lines = CXX_HEAD.split("\n")
+        lines = (CXX_HEAD + extra_head).split("\n")
         where = {}
         try:
-            ref = reference_meaning(cases)
+            ref = reference_meaning(cases, meaning_op)
         except Exception:  # noqa
             ref = [None] * len(cases)
         refstat = {"defined": 0, "valid": 0, "agree_gxx": 0, "gxx_rejects_original": 0, "differ": []}
@@ -409,7 +411,7 @@ def gxx_check(ctx, cases, tag):
                 why = b.get("rend", b.get("same"))
                 ctx.fail("gxx:" + rt_class(a, text), "g++: %r is rendered by gen_arg_as_cxx as %r, not the same type (%s)" % (
                     text, a.gen_arg_as_cxx(with_template_args=True), why), {"kind": "gxx", "decl": text})
-        ctx.note("cxxMeaning_vs_gxx", dict(refstat, differ=len(refstat["differ"])))
+        ctx.note("cxxMeaning_vs_gxx:" + tag, dict(refstat, differ=len(refstat["differ"])))
         if refstat["differ"]:
             ctx.tie_broken("cxxMeaning-vs-gxx", refstat["differ"][:5])
     finally:
@@ -467,6 +469,121 @@ def gcc_c_check(ctx, cases):
     return compared
 
 
+def gxx_valid(texts, head):
+    """indices of the declarations g++ accepts (each in its own namespace)"""
+    tmp = common.scratch()
+    try:
+        lines = (CXX_HEAD + head).split("\n")
+        where = {}
+        for i, t in enumerate(texts):
+            where[len(lines) + 1] = i
+            lines.append("namespace v%d { extern %s; }" % (i, t))
+        src = os.path.join(tmp, "v.cpp")
+        with open(src, "w") as f:
+            f.write("\n".join(lines) + "\n")
+        p = subprocess.run(["g++", "-std=c++11", "-fsyntax-only", "-fmax-errors=0", "-w", src],
+                           stdout=subprocess.PIPE, stderr=subprocess.STDOUT, text=True, timeout=600)
+        bad = set()
+        for m in re.finditer(r"v\.cpp:(\d+):\d+: error:", p.stdout):
+            if int(m.group(1)) in where:
+                bad.add(where[int(m.group(1))])
+        return set(range(len(texts))) - bad
+    finally:
+        common.rmtree(tmp)
+
+
+# ------------------------------------------------------------------ oracle (c): declarations after the generate phase
+POSTGEN_DECLS = [
+    "void sum0(int n, const double *a +rank(0))", "void sum1(int n, const double *a +rank(1))",
+    "void sum2(int n, const double *a +rank(2))", "void sum3(int n +value, double *a +rank(1)+intent(inout))",
+    "void dim1(int n, double *a +dimension(n)+intent(out))", "void dim2(int n, int m, double *a +dimension(n,m))",
+    "void imp(const double *a +rank(1), int n +implied(size(a)))", "void len1(char *s +len(1)+intent(out))",
+    "void len30(char *s +len(30)+intent(out))", "int *ret1(int n) +dimension(n)", "int *ret2() +deref(pointer)+dimension(1)",
+    "void own(int **a +intent(out)+dimension(1)+deref(allocatable))", "void val(int x +value, int *y +intent(in))",
+    "const char *name() +len(1)", "void hid(int n +hidden, double *a +rank(1))", "void cd(int *a +cdesc+rank(1))",
+    "void ext(void (*cb)(int *p +rank(1)) +external)", "double *alloc(int n) +dimension(n)+owner(caller)",
+    "void chl(char *s +charlen(1)+intent(out))", "void r7(double *a +rank(7))",
+]
+POSTGEN_CXX = [
+    "void vec(std::vector<int> &v +intent(out)+rank(1))", "const std::string &sname() +len(1)",
+    "void sarg(std::string &s +intent(inout)+len(1))", "void ref(int &n +intent(out), double *a +rank(1))",
+]
+
+
+def oracle_postgen(ctx):
+    """Run the real VerifyAttrs/GenFunctions on functions whose attributes carry values, then gen_decl every
+    resulting function (generated variants included), re-parse it and compare the attribute VALUES."""
+    from shroud import declast
+    stat = {"functions": 0, "renderings": 0, "attrs_compared": 0, "by_value_type": {}, "failures": 0, "rejected_by_generate": 0}
+
+    def norm(v):
+        return True if v is True else str(v)
+
+    def compare(orig, again, path, text, rendered):
+        bad = []
+        oa = {k: v for k, v in orig.attrs.items() if v is not None and not k.startswith("_") and k != "template"}
+        ra = {k: v for k, v in again.attrs.items() if v is not None and not k.startswith("_")}
+        for k in sorted(set(oa) | set(ra)):
+            stat["attrs_compared"] += 1
+            tn = type(oa.get(k)).__name__
+            stat["by_value_type"][tn] = stat["by_value_type"].get(tn, 0) + 1
+            if k not in oa or k not in ra or norm(oa[k]) != norm(ra[k]):
+                bad.append("%s%s: %r -> %r" % (path, k, oa.get(k), ra.get(k)))
+        for i, (p, q) in enumerate(zip(orig.params or [], again.params or [])):
+            bad += compare(p, q, path + "arg%d." % i, text, rendered)
+        if len(orig.params or []) != len(again.params or []):
+            bad.append(path + "parameter count %d -> %d" % (len(orig.params or []), len(again.params or [])))
+        return bad
+
+    for lang in ("c", "c++"):
+        for decl in POSTGEN_DECLS + (POSTGEN_CXX if lang == "c++" else []):
+            if lang == "c" and ("&" in decl or "std" in decl):
+                continue
+            d = {"library": "pg", "language": lang, "declarations": [{"decl": decl}]}
+            res = _postgen_library(d)
+            if res is None:
+                stat["rejected_by_generate"] += 1
+                continue
+            lib, fns = res
+            for fn in fns:
+                stat["functions"] += 1
+                a = fn.ast
+                try:
+                    rendered = a.gen_decl()
+                    again = declast.check_decl(rendered, namespace=lib)
+                except Exception as e:  # noqa
+                    ctx.fail("postgen:render", "after generate, the rendering of %r does not re-parse: %s" % (
+                        decl, str(e).split("\n")[-1]), {"kind": "postgen", "decl": decl, "language": lang})
+                    stat["failures"] += 1
+                    continue
+                stat["renderings"] += 1
+                ctx.count(1)
+                bad = compare(a, again, "", decl, rendered)
+                if bad:
+                    stat["failures"] += 1
+                    ctx.fail("postgen:attr-value", "after generate, %r is written back as %r; re-parsing changes %s" % (
+                        decl, rendered, "; ".join(bad[:3])), {"kind": "postgen", "decl": decl, "language": lang})
+    ctx.note("postgen_roundtrip", stat)
+
+
+def _postgen_library(d):
+    """(library, functions incl. generated variants) after the real generate_functions, or None if rejected"""
+    import contextlib
+    import copy
+    from shroud import ast, generate, typemap, main
+    from tools.props import c17_attrs
+    try:
+        with contextlib.redirect_stdout(c17_attrs._NULL):
+            typemap.initialize()
+            lib = ast.create_library_from_dictionary(c17_attrs.lined(copy.deepcopy(d)))
+            cfg = main.Config()
+            cfg.log = c17_attrs._NULL
+            generate.generate_functions(lib, cfg)
+    except (RuntimeError, SystemExit):
+        return None
+    return lib, list(lib.functions)
+
+
 # ------------------------------------------------------------------ streams
 def corpus_cases(name):
     path = os.path.join(common.CORPUS, name)
@@ -497,18 +614,67 @@ def streams(r, n, maxdepth, shares=(4, 3, 2)):
     return cases, kinds, g.stats
 
 
-def correspondence(ctx, cases, kinds, ok, want_tokens=True, outcome_only=False):
+# ------------------------------------------------------------------ systematic families
+def special_shapes():
+    """Small exhaustive family around parameter lists: every base type x pointer chain x named/unnamed, as the
+    only parameter, as one of two, and as the parameter of a callback; plus function pointers with abstract
+    parameter lists.  (The random generator reaches these shapes too rarely.)"""
+    types = ["void", "const void", "int", "const char", "size_t", "std :: string", "double", "volatile void",
+             "unsigned long"]
+    chains = ["", "*", "* *", "* const", "&", "* &", "* * *", "* const *", "* volatile"]
+    out = []
+    for t in types:
+        for c in chains:
+            for name in ("", "p"):
+                prm = " ".join(x for x in (t, c, name) if x)
+                out.append("void f ( %s )" % prm)
+                out.append("int g ( %s , int n )" % prm)
+                out.append("int g ( int n , %s )" % prm)
+                out.append("void h ( int ( * cb ) ( %s ) )" % prm)
+                out.append("%s ( * fp ) ( %s )" % (t + (" " + c if c else ""), prm))
+                out.append("void k ( void ( * ) ( %s ) , %s )" % (prm, prm))
+    out += ["void f ( void )", "void f ( )", "void f ( const void )", "void f ( void + a )", "void f ( void x )",
+            "int ( * cb ) ( void )", "int ( * cb ) ( )", "void f ( void ( * ) ( void ) )",
+            "void f ( int ( * ) ( int ( * ) ( void * ) ) )"]
+    return out
+
+
+def nested_cases():
+    """Qualified names of 1-4 components over the nested environment (extract_decl.nested_library): every path,
+    valid or not, in variable / parameter / callback position."""
+    comps = ["outer", "inner", "deep", "other", "Cls", "Only", "Deepest", "std", "string"]
+    names = set()
+    valid = ["Cls", "outer :: Cls", "outer :: inner :: Cls", "outer :: inner :: Only", "outer :: inner :: deep :: Cls",
+             "outer :: inner :: deep :: Deepest", "other :: Only", "other :: inner :: Cls", "std :: string"]
+    names.update(valid)
+    import itertools
+    for n in (1, 2, 3):
+        for t in itertools.product(comps, repeat=n):
+            if n < 3 or (t[0] in ("outer", "other") and t[1] in ("inner", "Cls", "Only")):
+                names.add(" :: ".join(t))
+    for t in itertools.product(["outer", "other"], ["inner"], ["deep", "Cls", "Only"], ["Cls", "Deepest", "Only", "deep"]):
+        names.add(" :: ".join(t))
+    out = []
+    for nm in sorted(names):
+        out.append("%s * p" % nm)
+        out.append("void f ( const %s & p )" % nm)
+        out.append("%s * g ( %s * , int n )" % (nm, nm))
+        out.append("void h ( int ( * cb ) ( %s * ) )" % nm)
+    return out
+
+
+def correspondence(ctx, cases, kinds, ok, want_tokens=True, outcome_only=False, lib=None, op="parse", tag="decl"):
     """Compare real code and model on every case.  Returns (impl lines, asts)."""
     drv = common.Driver("drv_decl")
     impl, asts, reqs = [], [], []
     for s in cases:
-        line, a = dc.real_parse(s)
+        line, a = dc.real_parse(s, lib)
         impl.append(line)
         asts.append(a)
-        reqs.append("parse " + dc.enc_tokens(dc.raw_tokens(s)))
+        reqs.append(op + " " + dc.enc_tokens(dc.raw_tokens(s)))
     ctx.count(len(cases))
     if not (drv.available() and ok):
-        ctx.tie_broken("decl-correspondence", "driver not built")
+        ctx.tie_broken(tag + "-correspondence", "driver not built")
         return impl, asts
     model = drv.run(reqs)
     dis = []
@@ -531,9 +697,11 @@ def correspondence(ctx, cases, kinds, ok, want_tokens=True, outcome_only=False):
         elif cls == "reject":
             ctx.nontrivial("reject:" + a.split(" ")[1][:60])
     if dis:
-        ctx.tie_broken("decl-correspondence", dis[:5])
-    ctx.note("decl_disagreements", len(dis))
-    ctx.note("outcome_distribution", dist)
+        ctx.tie_broken(tag + "-correspondence", dis[:5])
+    ctx.note(tag + "_disagreements", len(dis))
+    ctx.note(tag + "_outcome_distribution", dist)
+    if op != "parse":
+        return impl, asts
     # keyword reclassification
     treq = ["tok " + dc.enc_tokens(dc.raw_tokens(s)) for s in cases[:4000]]
     tmodel = drv.run(treq)
@@ -586,10 +754,14 @@ def run(ctx):
     n = 150000 if thorough else 24000
     cases = corpus_cases("c09.txt")
     kinds = ["corpus"] * len(cases)
+    sp_cases = special_shapes()
+    cases += sp_cases
+    kinds += ["special"] * len(sp_cases)
     c2, k2, gstats = streams(r, n, depth)
     cases += c2
     kinds += k2
     impl, asts = correspondence(ctx, cases, kinds, ok)
+    ctx.note("special_shapes", len(sp_cases))
     ctx.note("generator_branches", dict(sorted(gstats.items(), key=lambda kv: -kv[1])[:40]))
     for s, a in list(zip(cases, impl))[:: max(1, len(cases) // 6)][:6]:
         ctx.sample({"decl": s, "impl": a[:160]})
@@ -639,8 +811,32 @@ def run(ctx):
         ctx.note("cxxMeaning_vs_denote", mstat)
         check_base_agrees(ctx, 5 if thorough else 4)
 
+    # ---- nested namespaces: qualified names of 1-4 components, same names at different depths
+    ncases = nested_cases()
+    nlib = dc.nested_library()
+    nimpl, nasts = correspondence(ctx, ncases, ["nested"] * len(ncases), ok, want_tokens=False, lib=nlib, op="parse2",
+                                  tag="nested")
+    nacc = [(s, a) for s, a, l in zip(ncases, nasts, nimpl) if a is not None and l.startswith("ok ") and a.name]
+    valid = gxx_valid(ncases, extract_decl.NESTED_CXX)
+    nrej = 0
+    for i, (s, l) in enumerate(zip(ncases, nimpl)):
+        if i in valid and not l.startswith("ok "):
+            nrej += 1
+            ctx.fail("qualified-rejected", "g++ accepts %r (names resolve through nested scopes) but check_decl rejects it: %s" % (
+                s, common.dec(l.split(" ", 1)[1]) if l.startswith("reject ") else l), {"kind": "nested", "decl": s})
+    nn = gxx_check(ctx, nacc, "nested", extra_head=extract_decl.NESTED_CXX, meaning_op="meaning2")
+    ctx.note("nested", {"cases": len(ncases), "accepted": len(nacc), "gxx_valid": len(valid), "valid_but_rejected": nrej,
+                        "gxx_compared": nn})
+
+    # ---- oracle (c): declarations after the generate phase (attribute values as integers / True / text)
+    oracle_postgen(ctx)
+
     # ---- oracle (b): g++ / gcc
     cand = cxx_candidates(common.rng("c09-gxx"), 4000 if thorough else 500, depth)
+    for t in sp_cases:
+        line, a = dc.real_parse(t)
+        if a is not None and line.startswith("ok ") and a.name is not None:
+            cand.append((t, a))
     ng = gxx_check(ctx, cand, "is_same")
     nc = gcc_c_check(ctx, cand)
     ctx.note("gxx_compared", ng)
